@@ -77,7 +77,8 @@ impl Bound for String {
         "str".to_string()
     }
     fn min() -> Self {
-        "\u{00}".to_string()
+        // The empty string is the smallest string
+        String::new()
     }
     fn max() -> Self {
         "\u{10FFFF}".to_string()
